@@ -209,6 +209,23 @@ class Differential(Stage):
             for conn in sorted(sides, reverse=True):
                 pass
             gdb_lines = normalise(drv.out.buffer.split('\n')[:-1])
+            # array elements (only GDB mode has them): element j of the array at argument position i is decorated as
+            # argument i would be - never as argument j
+            from core import wl
+            from core.wl import protocol
+            for gm in drv.ctl.all_messages:
+                for i, a in enumerate(gm.args):
+                    if isinstance(a, wl.Arg.Array) and a.values:
+                        res.count('array-elements-checked', len(a.values))
+                        for e in a.values:
+                            try:
+                                exp = protocol.look_up_enum(gm.obj.type, gm.name, i, e.value) if gm.obj.type else []
+                            except RuntimeError:
+                                exp = []
+                            if list(getattr(e, 'labels', [])) != list(exp) or e.name is not None:
+                                res.bad('array-element-decoration', '%s: element %r of argument %d is decorated %r (name %r), argument %d would get %r' % (
+                                    str(gm), e.value, i, getattr(e, 'labels', []), e.name, i, exp))
+                                break
         finally:
             drv.close()
         # connections are closed at end of input in log mode only: compare up to the Closed notices
